@@ -194,7 +194,7 @@ def cfg_text(constants, invariants, view=None, spec="Spec", properties=None, con
     return t
 
 
-def run_harness(binary, args, *, timeout=3600, env_extra=None, stdin=None):
+def run_harness(binary, args, *, timeout=2400, env_extra=None, stdin=None):
     """Run a harness sub-command; it prints one JSON document (the report) on its last stdout line
     prefixed by 'REPORT '. Anything else on stdout/stderr is passed through as log."""
     e = goenv()
